@@ -231,8 +231,7 @@ func (e *Env) index(base, idx Val) Val {
 	if base.GT != nil {
 		switch u := base.GT.Underlying().(type) {
 		case *types.Slice:
-			comp := sliceHeap(u.Elem())
-			eng.regComp(comp, "(Array Int (Array Int "+eng.sorts.sortOf(u.Elem())+"))")
+			comp := eng.regSlice(u.Elem())
 			h := eng.heapGet(e.cur, comp)
 			return Val{T: sel(sel(h, app("sl_arr", base.T)), "(+ "+app("sl_off", base.T)+" "+idx.T+")"), S: eng.sorts.sortOf(u.Elem()), GT: u.Elem()}
 		case *types.Map:
@@ -389,9 +388,8 @@ func (e *Env) call(x *ast.CallExpr) Val {
 		if !ok {
 			e.fail("arr() of non-slice")
 		}
-		comp := sliceHeap(sl.Elem())
+		comp := eng.regSlice(sl.Elem())
 		es := eng.sorts.sortOf(sl.Elem())
-		eng.regComp(comp, "(Array Int (Array Int "+es+"))")
 		return Val{T: sel(eng.heapGet(e.cur, comp), app("sl_arr", v.T)), S: "(Array Int " + es + ")"}
 	case "off":
 		v := e.tr(x.Args[0])
